@@ -168,6 +168,87 @@ func TestConcurrent(t *testing.T) {
 	out := newOut(t, "conc")
 	defer out.Close()
 	iters := count(400, 20000)
+	// one object, the same call from several goroutines at the same moment: Listen on one listener, Dial on one
+	// dialer - the sequential contract lets exactly one of them start the endpoint (Core.tla ListenCall / DialCall:
+	// the others find it active)
+	{
+		r := rec.New()
+		status, detail := "ok", ""
+		func() {
+			defer func() {
+				if x := recover(); x != nil {
+					status, detail = "panic", fmt.Sprint(x)
+				}
+			}()
+			srv, _ := pair.NewSocket()
+			defer srv.Close()
+			sl, err := srv.NewListener("tcp://127.0.0.1:0", nil)
+			if err != nil {
+				panic(err)
+			}
+			if err = sl.Listen(); err != nil {
+				panic(err)
+			}
+			rounds := 300 // (not scaled by VERIF_N: the race job runs this driver with a small N)
+			if thorough() {
+				rounds = 2500
+			}
+			for _, what := range []string{"listen", "dial"} {
+				worst, calls := 0, 0
+				other := map[string]int{}
+				for i := 0; i < rounds; i++ {
+					s, _ := pair.NewSocket()
+					_ = s.SetOption(mangos.OptionDialAsynch, true)
+					var fn func() error
+					if what == "listen" {
+						l, err := s.NewListener("tcp://127.0.0.1:0", nil)
+						if err != nil {
+							panic(err)
+						}
+						fn = l.Listen
+					} else {
+						d, err := s.NewDialer(sl.Address(), nil)
+						if err != nil {
+							panic(err)
+						}
+						fn = d.Dial
+					}
+					const K = 4
+					var wg sync.WaitGroup
+					var ready atomic.Int32
+					res := make([]error, K)
+					for g := 0; g < K; g++ {
+						wg.Add(1)
+						go func() {
+							defer wg.Done()
+							ready.Add(1)
+							for ready.Load() < K {
+							}
+							res[g] = fn()
+						}()
+					}
+					wg.Wait()
+					ok := 0
+					for _, e := range res {
+						calls++
+						switch e {
+						case nil:
+							ok++
+						case mangos.ErrAddrInUse:
+						default:
+							other[fmt.Sprint(e)]++
+						}
+					}
+					if ok > worst {
+						worst = ok
+					}
+					_ = s.Close()
+				}
+				r.Emit("cone", "op", what, "rounds", rounds, "calls", calls, "mostok", worst, "other", len(other), "others", fmt.Sprint(other))
+			}
+		}()
+		out.Add("conc-one-object", rec.Ev{"pat": "pair", "tran": "tcp"}, "same call on one endpoint", sim.Result{Lines: r.Lines(), Status: status, Detail: detail})
+	}
 	for pi, cp := range concPats {
 		for ti, tran := range []string{"inproc", "tcp", "tls+tcp", "ipc", "ws"} {
 			if ti >= 1 && (pi+ti)%3 != 0 && !(thorough() && ti == 1) {
